@@ -65,9 +65,9 @@ add('C08', ['C08Block', 'C08Inline', 'C08', 'C08Src'], PIPE,
 add('C09', ['C09', 'C09Doc', 'C09X', 'C09XCode'], ['corr.normalize', 'corr.pipeline', 'corr.pipelinex'],
     'Lean 4 proofs about the model of NormalizeWhitespace (line endings, tabs, STX/ETX, whitespace-only lines, leading/trailing blank lines), stated for the step list regenerated from the source; unit correspondence for tab lengths 0-8',
     'The normalisation theorems are full; the document-level theorems hold on the pipeline models (core and all extension sets: Props/C09Doc, C09X, C09XCode). F-C09-1 (whitespace-only first line) was repaired (fix: commit a0e7e3c); the first-line theorems are now unconditional.')
-add('C10', ['C10', 'C10b', 'C10c', 'C10X', 'C10XPost', 'C10XTree', 'C10XToc', 'C10XTocAttr', 'C10XLate', 'C10XRaw', 'C10XC', 'C10XBlock', 'C10XCAll', 'C10XFn', 'C10XFnLeak', 'C10XAll', 'C10XFenceBlock', 'C10XCAllF', 'C10XAllAmp', 'C10XCAllAmp', 'C09'], PIPE + ['corr.pipelinex'],
+add('C10', ['C10', 'C10b', 'C10c', 'C10X', 'C10XPost', 'C10XTree', 'C10XToc', 'C10XTocAttr', 'C10XLate', 'C10XRaw', 'C10XC', 'C10XBlock', 'C10XCAll', 'C10XFn', 'C10XFnLeak', 'C10XAll', 'C10XFenceBlock', 'C10XCAllF', 'C10XAllAmp', 'C10XCAllAmp', 'C09', 'C16Legacy'], PIPE + ['corr.pipelinex', 'corr.legacyattrs'],
     'Lean 4 proofs: input cannot forge placeholders (normalisation strips STX/ETX), post-conditions of every restore step, placeholder invariants of the inline model on the pattern subset that cannot leak; the model leaks where the code leaks (kernel-checked)',
-    'PARTIAL: proved on the leak-free domains of Props/C10*.lean for the core pipeline and for every subset of the eleven modelled extensions; the regions of F-C10-1..8 are excluded by explicit decidable hypotheses and kernel-checked; raw HTML and unmodelled extensions by search.')
+    'PARTIAL: proved on the leak-free domains of Props/C10*.lean for the core pipeline and for every subset of the eleven modelled extensions; the regions of F-C10-1..9 are excluded by explicit decidable hypotheses and kernel-checked; raw HTML and unmodelled extensions by search.')
 add('C11', ['C11', 'C11Census', 'C11X'], ['corr.instancex'],
     'Lean 4 frame theorem on an abstract instance state machine (reset re-establishes the fresh state for every non-raising history) + census theorems decided by the kernel over tables regenerated from the source AST: every conversion-time write to instance state is re-initialised by reset() or on a justified allow-list',
     'The abstract model takes `convert` as a parameter; the concrete stateful model (Model/InstanceX.lean, tied by corr.instancex) instantiates it for the eleven modelled extensions + meta (Props/C11X); for the other extensions the census theorems + the oracle (fresh vs reset instances, attribute census) speak. F-C11-1 was repaired (fix: commit f86514b): reset() clears parser.state, the theorems hold for every history; the pre-repair reset is kept as a labelled counterexample.')
@@ -84,10 +84,10 @@ add('C15', ['C15', 'C15Inline', 'C15Forms', 'C15Text'], PIPE,
     'Lean 4 proofs on the block model: the reference-definition recogniser accepts every title spelling, a definition adds exactly one map entry and no node, position independence, label normalisation',
     'End to end for the reference forms and document shapes of Props/C15Forms/C15Text (marked-up link text, n definitions x m uses, definitions anywhere among blocks); uses inside nested blocks by correspondence.')
 add('C16', ['C16Tables', 'C16Triggers', 'C16AttrList', 'C16Fenced', 'C16BlockExt', 'C16Order', 'C16Pipeline', 'C16Render',
-            'C16RenderFence', 'C16RenderWiki', 'C16RenderX', 'C16RenderG', 'C16Meta'],
-    ['corr.tables', 'corr.triggers', 'corr.attrlist', 'corr.code', 'corr.blockext', 'corr.dispatch', 'corr.pipelinex', 'corr.meta'],
+            'C16RenderFence', 'C16RenderWiki', 'C16RenderX', 'C16RenderG', 'C16Meta', 'C16Legacy'],
+    ['corr.tables', 'corr.triggers', 'corr.attrlist', 'corr.code', 'corr.blockext', 'corr.dispatch', 'corr.pipelinex', 'corr.meta', 'corr.legacyattrs'],
     'Lean 4 proofs: table cell splitting/row width/alignment theorems, attribute-list print/parse round trip, entry recognisers of every extension need their trigger + dispatcher inertness theorem (non-interference), fenced-code inertness',
-    'PARTIAL: md_in_html, smarty, codehilite, legacy_* are not modelled (search only); for the eleven modelled extensions + meta: non-interference on the end-to-end model and documented rendering end to end for the document shapes of Props/C16Render*.lean, other compositions by correspondence/search.')
+    'PARTIAL: md_in_html, smarty, codehilite, legacy_em are not modelled (search only); legacy_attrs is modelled (Model/Ext/LegacyAttrs.lean, PipelineL; Props/C16Legacy: exact tree-level trigger, recogniser-level rendering, atomic/code texts kept on any tree); for the eleven modelled extensions + meta: non-interference on the end-to-end model and documented rendering end to end for the document shapes of Props/C16Render*.lean, other compositions by correspondence/search.')
 add('C17', ['C17', 'C17Doc', 'C17Src', 'C16Order'], ['corr.toc', 'corr.pipelinex'],
     'Lean 4 proofs: unique() fresh + terminating (pigeonhole), assigned ids pairwise distinct, nest_toc_tokens flatten/outline theorems for all level sequences, footnote id bookkeeping (refs resolve, k refs → k distinct back-links)',
     'slugify and inline rendering of titles are parameters (theorems hold for every slugify); F-C17-1/2 are kernel-checked counterexamples.')
